@@ -3,8 +3,12 @@ pub mod oneshot {
     use super::*;
     pub struct Sender<T> { pub p: core::marker::PhantomData<T> }
     pub struct Receiver<T> { pub p: core::marker::PhantomData<T> }
+    // the receiver yields exactly what is (ever) sent on its sender: `fate`
     #[verifier::external_body]
-    pub fn channel<T>() -> (r: (Sender<T>, Receiver<T>)) { unimplemented!() }
+    pub fn channel<T>() -> (r: (Sender<T>, Receiver<T>)) ensures r.1.will_receive() == r.0.fate() { unimplemented!() }
+    impl<T> Receiver<T> {
+        pub uninterp spec fn will_receive(&self) -> Option<T>;
+    }
     impl<T> Sender<T> {
         /// Prophecy: the unique value ever sent on this sender (`send` consumes `self`).
         pub uninterp spec fn fate(&self) -> Option<T>;
@@ -19,6 +23,10 @@ pub mod mpsc {
     pub struct Sender<T> { pub p: core::marker::PhantomData<T> }
     pub struct Receiver<T> { pub p: core::marker::PhantomData<T> }
     pub struct SendError<T>(pub T);
+    #[verifier::external_body]
+    pub fn channel<T>(buffer: usize) -> (r: (Sender<T>, Receiver<T>))
+        requires buffer == 1,   // the queue model of env/paystate_env.rs is for capacity-1 channels (C06b)
+    { unimplemented!() }
 }
 pub struct HashMap<K, V> { pub p: core::marker::PhantomData<(K, V)> }
 pub struct Mutex<T> { pub p: core::marker::PhantomData<T> }
